@@ -288,6 +288,14 @@ class Routes:
                     t8 = fa.ChangingIndex(-1, 7.0)
                     self.cmp("FixedArray.ChangingIndex(-1, x)", list(t8.values), [float(t) for t in vals[:-1]] + [7.0], case, None, None, list(vals[:-1]) + [7.0])
                     self.cmp("FixedArray.IndexAsScalar(-1, quantity)", fa.IndexAsScalar(-1, ObtainQuantity(v, c)).value, [rr[-1]], case, au, av, [vals[-1]])
+                    # an array backed by integers takes a fractional amount as it is (nothing is squeezed into the container's dtype)
+                    for dt_ in (np.int64, np.int32):
+                        fi = FixedArray(len(vals), c, np.array([1, 2, 3, 4, 5, 6][: len(vals)], dtype=dt_), u)
+                        ti = fi.ChangingIndex(0, Scalar(c, 2.5, v), use_value_unit=False)
+                        self.cmp("FixedArray[%s].ChangingIndex(scalar, keep unit)[i]" % dt_.__name__, ti.values[0], [db.Convert(qt, v, u, 2.5)], case, av, au, [2.5])
+                        tj = fi.ChangingIndex(1, 0.75)
+                        self.cmp("FixedArray[%s].ChangingIndex(x)[i]" % dt_.__name__, [float(t) for t in tj.values][:2], [1.0, 0.75], case, None, None, [1.0, 0.75])
+                        self.cmp("FixedArray[%s].ChangingIndex(scalar, keep unit) -> IndexAsScalar" % dt_.__name__, ti.IndexAsScalar(0).value, [db.Convert(qt, v, u, 2.5)], case, av, au, [2.5])
                     t5 = fa.ChangingIndex(0, 5.0)  # a plain amount is an amount in the array's own unit
                     self.cmp("FixedArray.ChangingIndex(x)", list(t5.values), [5.0] + [float(t) for t in vals[1:]], case, None, None, [5.0] + vals[1:])
                     self.meta("FixedArray.ChangingIndex(x)", t5, c, qt, u, case)
@@ -467,6 +475,44 @@ def _explicit_database(ctx, R):
         R.guard("explicit database asked directly", case, go2)
 
 
+def _refilled_database(ctx, R):
+    """One database object emptied (`Clear`) and filled again with a table that gives the same symbols other sizes: every
+    route answers by the table the database holds now"""
+    import numpy as np
+    from barril.units import Array, ChangeScalars, ObtainQuantity, Scalar, UnitDatabase
+
+    db = UnitDatabase()
+    with table.pushed(db):
+        for generation in (1, 2, 3):
+            if generation != 1:
+                db.Clear()
+            k = {1: 1000.0, 2: 999.0, 3: 1000.0}[generation]
+            db.AddUnitBase("length", "metre", "m")
+            db.AddUnit("length", "centimetre", "cm", "%f*100.0" if generation != 2 else "%f*50.0", "%f/100.0" if generation != 2 else "%f/50.0")
+            db.AddUnit("length", "kilometre", "km", "%%f/%r" % k, "%%f*%r" % k)
+            db.AddCategory("length", "length")
+            for u, v, x in (("km", "cm", 1.0), ("cm", "km", 250.0), ("m", "cm", 2.0), ("km", "m", -3.0)):
+                case = {"refilled database": True, "generation": generation, "u": u, "v": v, "x": x}
+                want = db.Convert("length", u, v, x)
+
+                def go():
+                    R.cmp("Scalar.GetValue after a refill", Scalar(x, u).GetValue(v), [want], case, None, None, [x])
+                    R.cmp("Scalar.CreateCopy(unit) after a refill", Scalar("length", x, u).CreateCopy(unit=v).value, [want], case, None, None, [x])
+                    R.cmp("Quantity.ConvertScalarValue after a refill", ObtainQuantity(u, "length").ConvertScalarValue(x, v), [want], case, None, None, [x])
+                    R.cmp("Array.GetValues after a refill", Array([x, x], u).GetValues(v), [want, want], case, None, None, [x, x])
+                    R.cmp("Array[nd].GetValues after a refill", Array(np.array([x, x]), u).GetValues(v), [want, want], case, None, None, [x, x])
+
+                    class _O:
+                        pass
+
+                    o = _O()
+                    o.a = Scalar(x, u)
+                    ChangeScalars(o, a=(None, v))
+                    R.cmp("ChangeScalars after a refill", o.a.value, [want], case, None, None, [x])
+
+                R.guard("refilled database routes", case, go)
+
+
 def _derived_own_unit(ctx, R, db, aff, rng, n):
     """asking a derived object for its value in its own unit returns the stored value unchanged."""
     import numpy as np
@@ -573,6 +619,7 @@ def run(ctx):
             if kind == "posc" and ctx.shard == 0:
                 _explicit_database(ctx, R)
                 _large_arrays(ctx, R, db, aff)
+                _refilled_database(ctx, R)
             if kind == "posc":
                 _derived_own_unit(ctx, R, db, aff, ctx.rng("derived"), 300 if ctx.tier == "quick" else 3000)
             ctx.notes.setdefault("routes_observed", {}).update({k: 1 for k in R.seen_routes})
